@@ -17,10 +17,12 @@ pub const SCHEMA_VARIANTS: [&str; 4] = [
     "type Query {\n  me: User!\n  pets: [Pet!]!\n",
 ];
 
-pub const EXT_VARIANTS: [&str; 3] = [
+pub const EXT_VARIANTS: [&str; 4] = [
     "",
     "extend type Query\n  @exposeField(field: \"node.asPet\", as: \"custom_pet_refetch\")\n",
     "extend type Query @@@\n",
+    // two types that each carry a malformed directive, with different error messages
+    "extend type Query\n  @exposeField(field: 1)\nextend type Pet\n  @exposeField(feld: \"x\")\nextend type User\n  @exposeField(field: \"a\", as: 2)\n",
 ];
 
 /// (name, content). `%` in a content is replaced by nothing; contents are complete files.
